@@ -184,6 +184,14 @@ func c01One(r *fw.Rec, id, variant, x string, unrep bool) {
 		cls := "translate-reject"
 		if strings.Contains(perr.Error(), "into an AST") {
 			cls = "grammar-reject"
+			// a predicate-defined family: constant expressions of opcodes LLVM 14 still
+			// has and the llir/ll grammar no longer knows, named by the opcode on the
+			// line the syntax error points at
+			if op := removedConstExprOpcode(x, perr.Error()); op != "" {
+				r.Violate(fw.Violation{Key: "grammar-reject/class:constant-expression-" + op, Input: x,
+					What: "a module LLVM accepts (" + id + "/" + variant + ") is rejected by the parser: " + firstLine(perr.Error()) + " (constant expression `" + op + " (...)`)"})
+				return
+			}
 		}
 		r.Violate(fw.Violation{Key: cls + "/" + key, Input: x, What: "a module LLVM accepts is rejected by the parser: " + firstLine(perr.Error())})
 		return
@@ -310,12 +318,34 @@ var reFloatTok = regexp.MustCompile(`^0x[0-9A-F]{16}$|^0x[HKLMR][0-9A-F]+$`)
 //	literals, each input literal is a NaN with a payload or sign/quiet bit other
 //	than the canonical quiet NaN and the output literal is the canonical quiet NaN
 //	of the same kind and sign.
+var reSyntaxLine = regexp.MustCompile(`syntax error at line ([0-9]+)`)
+var reRemovedConstExpr = regexp.MustCompile(`\b(udiv|sdiv|urem|srem|fadd|fsub|fmul|fdiv|frem) (?:exact )?\(`)
+
+// removedConstExprOpcode returns the opcode of a udiv/sdiv/urem/srem/fadd/
+// fsub/fmul/fdiv/frem constant expression on the line a syntax error names.
+func removedConstExprOpcode(x, errText string) string {
+	m := reSyntaxLine.FindStringSubmatch(errText)
+	if m == nil {
+		return ""
+	}
+	n, _ := strconv.Atoi(m[1])
+	lines := strings.Split(x, "\n")
+	if n < 1 || n > len(lines) {
+		return ""
+	}
+	if mm := reRemovedConstExpr.FindStringSubmatch(lines[n-1]); mm != nil {
+		return mm[1]
+	}
+	return ""
+}
+
 func classifyDiff(a, b string) string {
 	ta, tb := strings.Fields(strings.NewReplacer(",", " ", ">", " ", "<", " ", ")", " ", "(", " ", "]", " ", "[", " ").Replace(a)), strings.Fields(strings.NewReplacer(",", " ", ">", " ", "<", " ", ")", " ", "(", " ", "]", " ", "[", " ").Replace(b))
 	if len(ta) != len(tb) {
 		return ""
 	}
 	n := 0
+	cls := ""
 	for i := range ta {
 		if ta[i] == tb[i] {
 			continue
@@ -323,15 +353,26 @@ func classifyDiff(a, b string) string {
 		if !reFloatTok.MatchString(ta[i]) || !reFloatTok.MatchString(tb[i]) {
 			return ""
 		}
-		if !isNaNLit(ta[i]) || !isCanonicalNaN(tb[i]) || sameSignLit(ta[i], tb[i]) == false {
+		c := ""
+		switch {
+		case isNaNLit(ta[i]) && isCanonicalNaN(tb[i]) && sameSignLit(ta[i], tb[i]):
+			c = "nan-payload-canonicalised"
+		case strings.HasPrefix(ta[i], "0xM") && strings.HasPrefix(tb[i], "0xM") && len(ta[i]) == 35 && len(tb[i]) == 35 && ta[i][:19] == tb[i][:19]:
+			// same high double, another low double (the library holds a ppc_fp128 in one big.Float)
+			c = "ppc_fp128-low-double-changed"
+		default:
 			return ""
 		}
+		if cls != "" && cls != c {
+			return ""
+		}
+		cls = c
 		n++
 	}
 	if n == 0 {
 		return ""
 	}
-	return "nan-payload-canonicalised"
+	return cls
 }
 
 func litBits(l string) (kind byte, v *big.Int) {
